@@ -215,4 +215,21 @@ PROPS = {
         trusted_base=["docutils 0.21.2 directive classes and option converters (the 'programs')"],
         technique="bounded run-time stand-in (exhaustive small contents x directive classes) - no contract discharged for this module yet",
     ),
+    "C13": dict(
+        level="other",
+        contracts=[],
+        flow=["checks.flow_frame:run"],
+        harness=True,
+        explanation=(
+            "PROVED on the AST (param-frame obligation): merge_file_level copies the global configuration, never stores "
+            "into it and never hands it to validate_field/setattr - 'the global configuration is never modified by parsing a "
+            "document'.  The accept/normalise relation of the validators operates on dynamically typed values (Any) and is "
+            "not yet under contract; it is BOUNDED: every option of a representative set x values of every YAML/JSON shape "
+            "against the documented type and canonical form, front matter vs global (dict-valued options merging, invalid "
+            "value ignored with exactly one warning, result still a valid configuration), and docutils setting strings vs "
+            "python values."
+        ),
+        assumptions=[],
+        trusted_base=["PyYAML (docutils string settings), docutils OptionParser"],
+    ),
 }
